@@ -317,7 +317,7 @@ def options(src: int, stype: int, meta: bool, mbi: int, roi: int, ri: int):
 
 OVERRIDES = ["path", "metadata_path", "memory_cache_mb", "memory_cache_mb=0", "read_only=True", "read_only=False",
              "memory:read_only=True", "memory:read_only=False", "cluster:storage", "cluster:runner", "cluster:name",
-             "repo:clusters", "env:repos"]
+             "repo:clusters", "env:repos", "cluster:storage(filesystem-backend-without-the-configured-options)"]
 
 
 @obligation(
@@ -389,6 +389,13 @@ def override(which: int, meta: bool, mbi: int, roi: int):
                 ccfg = {"name": "c1", "storage": dict(base), "runner": {"type": "local"}}
                 cl = FunctionCluster(ccfg, storage=MemoryStorageBackend())
                 exp.update(stype=1, meta=False, mbi=0, roi=0)
+                env = env_of(cluster=cl)
+            elif w == "cluster:storage(filesystem-backend-without-the-configured-options)":
+                # the configured storage section has a metadata path / a cache / a read-only flag; the backend given as an argument
+                # is a plain filesystem backend elsewhere: none of the configured options may leak into behaviour or dump
+                ccfg = {"name": "c1", "storage": dict(base), "runner": {"type": "null"}}
+                cl = FunctionCluster(ccfg, storage=FilesystemStorageBackend(path=root + "/data-arg"), runner=m.RunnerBackend.create("local", {}))
+                exp.update(stype=0, meta=False, mbi=0, roi=0, data="data-arg", meta_dir=None)
                 env = env_of(cluster=cl)
             elif w == "cluster:runner":
                 ccfg = {"name": "c1", "storage": dict(base), "runner": {"type": "local"}}
